@@ -85,9 +85,13 @@ Definition norm_calls (l : list call) : list call :=
 (* ---------- the model: constructor then AddTo ---------- *)
 Definition addto_fuel (v : val) : nat := S (S (val_depth v)).
 
-Definition deliver (stack : bytes) (c : name) (k : bytes) (v : val) : option (field * list call) :=
-  match construct T ctor_fuel stack c k v with
-  | Some f => match addto T (addto_fuel v) f with
+(* [la]: what the process-global time.Local points to while the Field is BUILT, [lb]: what it
+   points to while the Field is ENCODED.  They are two independent inputs: a Field is a value that
+   is routinely encoded later than it is built (With / WithLazy, buffering and sampling cores, test
+   observers), and time.Local is an assignable variable (the `time.Local = time.UTC` idiom). *)
+Definition deliver (la lb : Z) (stack : bytes) (c : name) (k : bytes) (v : val) : option (field * list call) :=
+  match construct T ctor_fuel la stack c k v with
+  | Some f => match addto T (addto_fuel v) lb f with
               | Some cs => Some (f, cs)
               | None => None
               end
@@ -162,16 +166,22 @@ Fixpoint exp_typed (t : gty) (k : bytes) (v : val) {struct t} : option (list cal
   | _, _ => None
   end.
 
-(* Dict: an object holding, in order, what each given field adds *)
-Definition exp_dict (k : bytes) (v : val) : option (list call) :=
+(* Dict: an object holding, in order, what each given field adds (the members are Fields the caller
+   hands over ready-made; what a ready-made Field adds is AddTo's business, at the moment [lb] of
+   encoding -- this is the only place where the specification mentions the ambient state, and it
+   does so only through the caller's own Fields) *)
+Definition exp_dict (lb : Z) (k : bytes) (v : val) : option (list call) :=
   match v with
   | VSlice _ l =>
       option_map (fun cs => [(($"object"), k, VCalls (norm_calls cs))])
-        (oconcati (fun _ x => match field_of_val x with Some f => addto T (S (val_depth v)) f | None => None end) 0 l)
+        (oconcati (fun _ x => match field_of_val x with Some f => addto T (S (val_depth v)) lb f | None => None end) 0 l)
   | _ => None
   end.
 
-Definition expected (stack : bytes) (nm : name) (t : gty) (k : bytes) (v : val) : option (list call) :=
+(* NOTE what is absent: the delivery of a value does not depend on what time.Local points to,
+   neither when the Field is built nor when it is encoded ([lb] reaches Dict's members only): the
+   encoder receives the ORIGINAL time -- same instant, same location *)
+Definition expected (lb : Z) (stack : bytes) (nm : name) (t : gty) (k : bytes) (v : val) : option (list call) :=
   let i := intent nm in
   if bytes_eqb i ($"binary") then match v with VBytes _ _ => Some [(($"binary"), k, v)] | _ => None end
   else if bytes_eqb i ($"bytestring") then match v with VBytes _ _ => Some [(($"bytestring"), k, v)] | _ => None end
@@ -190,7 +200,7 @@ Definition expected (stack : bytes) (nm : name) (t : gty) (k : bytes) (v : val) 
   else if bytes_eqb i ($"namespace") then Some [(($"namespace"), k, VNil)]
   else if bytes_eqb i ($"stack") then Some [(($"string"), k, VStr stack)]
   else if bytes_eqb i ($"nil") then Some [(($"reflect"), k, VNil)]
-  else if bytes_eqb i ($"dict") then exp_dict k v
+  else if bytes_eqb i ($"dict") then exp_dict lb k v
   else exp_typed t k v.
 
 (* zap.Any: the typed constructor of the dynamic type; otherwise the marshaler interfaces, then
@@ -379,10 +389,14 @@ Definition param_of (c : name) : gty :=
 Definition sx_of_ores (r : option bool) : sx :=
   SZ (match r with Some false => 0 | Some true => 1 | None => 2 end).
 
-(* cases:
-     (0 #name #key val #stack)                      -> (field calls) | (-1)
-     (1 dynty (iface ...) #key val #typedname)     -> (anyfield anycalls typedfield equals) | (-1)
-     (2 (#name #key val) (#name #key val))         -> (r12 r21 r11 r22), r = 0 false | 1 true | 2 panic *)
+(* cases (every case ends with the ambient pair (la lb): the identity of the location time.Local
+   pointed to while the Field(s) were built / while they were encoded; for an Equals pair: while
+   the first / the second Field was built):
+     (0 #name #key val #stack (la lb))                  -> (field calls) | (-1)
+     (1 dynty (iface ...) #key val #typedname (la lb)) -> (anyfield anycalls typedfield equals) | (-1)
+     (2 (#name #key val) (#name #key val) (la lb))     -> (r12 r21 r11 r22), r = 0 false | 1 true | 2 panic *)
+Definition amb_a (s : sx) : Z := sx_z (sx_nth s 0).
+Definition amb_b (s : sx) : Z := sx_z (sx_nth s 1).
 Definition dec_triple (s : sx) : name * bytes * val :=
   (ss (sx_b (sx_nth s 0)), sx_b (sx_nth s 1), val_of_sx (sx_nth s 2)).
 
@@ -390,7 +404,7 @@ Definition model (i : sx) : sx :=
   match sx_z (sx_nth i 0) with
   | 0 =>
       let '(c, k, v) := (ss (sx_b (sx_nth i 1)), sx_b (sx_nth i 2), val_of_sx (sx_nth i 3)) in
-      match deliver (sx_b (sx_nth i 4)) c k v with
+      match deliver (amb_a (sx_nth i 5)) (amb_b (sx_nth i 5)) (sx_b (sx_nth i 4)) c k v with
       | Some (f, cs) => SL [sx_of_field f; sx_of_calls cs]
       | None => panic_sx
       end
@@ -400,14 +414,15 @@ Definition model (i : sx) : sx :=
       let k := sx_b (sx_nth i 3) in
       let v := val_of_sx (sx_nth i 4) in
       let tc := ss (sx_b (sx_nth i 5)) in
-      match deliver [] (any_lookup (t_any T) ty impls) k v, construct T ctor_fuel [] tc k v with
+      let la := amb_a (sx_nth i 6) in let lb := amb_b (sx_nth i 6) in
+      match deliver la lb [] (any_lookup (t_any T) ty impls) k v, construct T ctor_fuel la [] tc k v with
       | Some (f, cs), Some g => SL [sx_of_field f; sx_of_calls cs; sx_of_field g; sx_of_ores (equals T f g)]
       | _, _ => panic_sx
       end
   | _ =>
       let '(c1, k1, v1) := dec_triple (sx_nth i 1) in
       let '(c2, k2, v2) := dec_triple (sx_nth i 2) in
-      match construct T ctor_fuel [] c1 k1 v1, construct T ctor_fuel [] c2 k2 v2 with
+      match construct T ctor_fuel (amb_a (sx_nth i 3)) [] c1 k1 v1, construct T ctor_fuel (amb_b (sx_nth i 3)) [] c2 k2 v2 with
       | Some f, Some g =>
           SL [sx_of_ores (equals T f g); sx_of_ores (equals T g f); sx_of_ores (equals T f f); sx_of_ores (equals T g g)]
       | _, _ => panic_sx
@@ -425,7 +440,7 @@ Definition spec (i o : sx) : bool :=
   match sx_z (sx_nth i 0) with
   | 0 =>
       let '(c, k, v) := (ss (sx_b (sx_nth i 1)), sx_b (sx_nth i 2), val_of_sx (sx_nth i 3)) in
-      calls_ok (sx_nth o 1) (expected (sx_b (sx_nth i 4)) c (param_of c) k v)
+      calls_ok (sx_nth o 1) (expected (amb_b (sx_nth i 5)) (sx_b (sx_nth i 4)) c (param_of c) k v)
   | 1 =>
       let ty := gty_of_sx (sx_nth i 1) in
       let impls := map (fun s => iface_of_Z (sx_z s)) (sx_l (sx_nth i 2)) in
@@ -435,7 +450,7 @@ Definition spec (i o : sx) : bool :=
       let want := spec_any ty impls in
       (* Any delivers what the typed constructor of the dynamic type is specified to deliver ... *)
       consistentb ty impls &&
-      calls_ok (sx_nth o 1) (expected [] want (param_of want) k v) &&
+      calls_ok (sx_nth o 1) (expected (amb_b (sx_nth i 6)) [] want (param_of want) k v) &&
       (* ... and, when that constructor is the one the value was built for, the two Fields are
          identical and compare equal *)
       (if bytes_eqb want tc
@@ -446,7 +461,8 @@ Definition spec (i o : sx) : bool :=
       let r11 := sx_z (sx_nth o 2) in let r22 := sx_z (sx_nth o 3) in
       let '(c1, k1, v1) := dec_triple (sx_nth i 1) in
       let '(c2, k2, v2) := dec_triple (sx_nth i 2) in
-      (* never panics; symmetric; reflexive; equal inputs compare equal *)
+      (* never panics; symmetric; reflexive; equal inputs compare equal -- whatever time.Local
+         pointed to when either Field was built *)
       negb (r12 =? 2) && negb (r21 =? 2) && negb (r11 =? 2) && negb (r22 =? 2) &&
       (r12 =? r21) && (r11 =? 1) && (r22 =? 1) &&
       (if sx_eqb (sx_nth i 1) (sx_nth i 2) then r12 =? 1 else true)
@@ -461,20 +477,20 @@ Definition spec (i o : sx) : bool :=
 Definition canon (s : sx) : bool := sx_eqb (sx_of_val (val_of_sx s)) s.
 Definition known (c : name) : bool := match find_ctor c (t_ctors T) with Some _ => true | None => false end.
 Definition is_some {A} (o : option A) : bool := match o with Some _ => true | None => false end.
-Definition wf_app (stack : bytes) (c : name) (k : bytes) (v : val) : bool :=
-  known c && in_typeb (param_of c) v && is_some (expected stack c (param_of c) k v).
-Definition wf_triple (s : sx) : bool :=
+Definition wf_app (lb : Z) (stack : bytes) (c : name) (k : bytes) (v : val) : bool :=
+  known c && in_typeb (param_of c) v && is_some (expected lb stack c (param_of c) k v).
+Definition wf_triple (lb : Z) (s : sx) : bool :=
   let '(c, k, v) := dec_triple s in
-  canon (sx_nth s 2) && wf_app [] c k v && payload_self (param_of c) v.
+  canon (sx_nth s 2) && wf_app lb [] c k v && payload_self (param_of c) v.
 Definition wf (i : sx) : bool :=
   match sx_z (sx_nth i 0) with
   | 0 => canon (sx_nth i 3) &&
-         wf_app (sx_b (sx_nth i 4)) (ss (sx_b (sx_nth i 1))) (sx_b (sx_nth i 2)) (val_of_sx (sx_nth i 3))
+         wf_app (amb_b (sx_nth i 5)) (sx_b (sx_nth i 4)) (ss (sx_b (sx_nth i 1))) (sx_b (sx_nth i 2)) (val_of_sx (sx_nth i 3))
   | 1 => let ty := gty_of_sx (sx_nth i 1) in
          let impls := map (fun s => iface_of_Z (sx_z s)) (sx_l (sx_nth i 2)) in
          let k := sx_b (sx_nth i 3) in
          let v := val_of_sx (sx_nth i 4) in
          canon (sx_nth i 4) && consistentb ty impls &&
-         wf_app [] (spec_any ty impls) k v && wf_app [] (ss (sx_b (sx_nth i 5))) k v
-  | _ => wf_triple (sx_nth i 1) && wf_triple (sx_nth i 2)
+         wf_app (amb_b (sx_nth i 6)) [] (spec_any ty impls) k v && wf_app (amb_b (sx_nth i 6)) [] (ss (sx_b (sx_nth i 5))) k v
+  | _ => wf_triple (amb_b (sx_nth i 3)) (sx_nth i 1) && wf_triple (amb_b (sx_nth i 3)) (sx_nth i 2)
   end.
